@@ -194,6 +194,28 @@ func SizedTree(kind, n int, ct geom.CoordinatesType) Tree {
 		return t
 	}
 	switch kind {
+	case 3: // a polygon with n tiny rings (member counts around allocation thresholds)
+		t := Tree{Type: geom.TypePolygon, CT: ct}
+		for i := 0; i < n; i++ {
+			t.Kids = append(t.Kids, line(4, 10*i, true))
+		}
+		return t
+	case 4: // a MultiPoint with n members
+		t := Tree{Type: geom.TypeMultiPoint, CT: ct}
+		for i := 0; i < n; i++ {
+			pt := Tree{Type: geom.TypePoint, CT: ct}
+			for j := 0; j < d; j++ {
+				pt.Coords = append(pt.Coords, float64(i*3+j))
+			}
+			t.Kids = append(t.Kids, pt)
+		}
+		return t
+	case 5: // a MultiLineString with n two-point members
+		t := Tree{Type: geom.TypeMultiLineString, CT: ct}
+		for i := 0; i < n; i++ {
+			t.Kids = append(t.Kids, line(2, 20*i, false))
+		}
+		return t
 	case 0:
 		return Tree{Type: geom.TypeMultiLineString, CT: ct, Kids: []Tree{line(n, 1, false), line(3, 5000, false), line(2, 9000, false)}}
 	case 1:
